@@ -262,17 +262,26 @@ Definition c09_ex_sizes : list (name * N) := [([98], 50); ([97], 100)].
 Definition c09_ex_input : list item :=
   [([97], {| v_start := 0; v_end := 5; v_bits := 1065353216 |}); ([97], {| v_start := 5; v_end := 12; v_bits := 1073741824 |});
    ([97], {| v_start := 20; v_end := 30; v_bits := 1056964608 |}); ([98], {| v_start := 3; v_end := 4; v_bits := 1065353216 |})].
-Example C09_whole_file_example :
-  match bw_write ieee c09_ex_opts c09_ex_sizes c09_ex_input, bw_collect ieee c09_ex_opts c09_ex_sizes c09_ex_input with
-  | Ok bs, Ok (ids, outs, sum, data) =>
-      opts_ok c09_ex_opts /\ Nlen bs < U64 /\ o_sort_all c09_ex_opts = true
-      /\ Forall (fun z => z < W32) (zoom_sizes_single c09_ex_opts)
-      /\ decode bs (fun _ _ => None) = Some (content_of ieee c09_ex_opts c09_ex_sizes ids outs sum [5; 40])
-      /\ map (fun r => (fr_chrom r, fr_start r, fr_end r)) (recs_of outs) = [(0, 0, 5); (0, 5, 12); (0, 20, 30); (1, 3, 4)]
-      /\ Nlen bs = 1768
-  | _, _ => False
-  end.
+Example C09_whole_file_example : exists bs ids outs sum data,
+  bw_write ieee c09_ex_opts c09_ex_sizes c09_ex_input = Ok bs
+  /\ bw_collect ieee c09_ex_opts c09_ex_sizes c09_ex_input = Ok (ids, outs, sum, data)
+  /\ opts_ok c09_ex_opts /\ input_ok c09_ex_sizes c09_ex_input /\ Nlen bs < U64
+  /\ Forall (fun c : name => c <> []) (map fst (runs c09_ex_input)) /\ o_sort_all c09_ex_opts = true
+  /\ Forall (fun z => z < W32) (zoom_sizes_single c09_ex_opts)
+  /\ decode bs (fun _ _ => None) = Some (content_of ieee c09_ex_opts c09_ex_sizes ids outs sum [5; 40])
+  /\ map (fun r => (fr_chrom r, fr_start r, fr_end r)) (recs_of outs) = [(0, 0, 5); (0, 5, 12); (0, 20, 30); (1, 3, 4)]
+  /\ Nlen bs = 1342.
 Proof.
-  vm_compute. repeat split; try reflexivity; try discriminate; try lia.
-  repeat (constructor; [reflexivity|]). constructor.
+  do 5 eexists. split; [vm_compute; reflexivity|]. split; [vm_compute; reflexivity|].
+  split; [unfold opts_ok, c09_ex_opts; cbn [o_bs o_ips]; lia|].
+  split.
+  { unfold input_ok. change (runs c09_ex_input) with
+      [([97], [{| v_start := 0; v_end := 5; v_bits := 1065353216 |}; {| v_start := 5; v_end := 12; v_bits := 1073741824 |};
+                {| v_start := 20; v_end := 30; v_bits := 1056964608 |}]); ([98], [{| v_start := 3; v_end := 4; v_bits := 1065353216 |}])].
+    cbn [map fst]. unfold BigWigFileChroms.no_zero, U16, U32, c09_ex_sizes, c09_ex_input.
+    repeat split; repeat (constructor; cbn [fst snd v_bits]; try (repeat split); try (repeat constructor); try lia; try discriminate). }
+  split; [vm_compute; reflexivity|].
+  split; [cbn; repeat constructor; discriminate|]. split; [reflexivity|].
+  split; [apply Forall_forall; intros z Hz; vm_compute in Hz; unfold W32; destruct Hz as [<-|[<-|[]]]; lia|].
+  split; [vm_compute; reflexivity|]. split; vm_compute; reflexivity.
 Qed.
